@@ -17,6 +17,9 @@
 //!   must have its predicted page. Plus `-t lcov|covdir|files -o` into a missing nested directory
 //!   (nothing may be created: `get_target_output_writable` does not create parents), an existing
 //!   directory (`<dir>/<fixed name>`), or a file.
+//! * `dest.llvm` — the source-based path through recording stub tools with profiles as plain file
+//!   arguments (one `.profdata`, one `.profraw`, several), in a directory, in a zip: input and temp-dir
+//!   snapshots, and the `-o` path of the merge against `profdataPath (workerDir tmp i)`.
 //! * corpus/C19/*.json (op `dest.cli.corpus`) first: minimised past failures, e.g. the former finding
 //!   C19-html-backslash-escape (a path mapping with backslashes; fixed by /repo 568afd2).
 use corrlib::pipe::*;
@@ -632,6 +635,7 @@ pub fn run(rep: &mut Report) {
     stream_html(rep, &mut rng);
     stream_cli(rep, &mut rng);
     stream_outfile(rep, &mut rng);
+    stream_llvm(rep, &mut rng);
 }
 
 pub fn replay(rep: &mut Report, case: &serde_json::Value) {
@@ -645,5 +649,226 @@ pub fn replay(rep: &mut Report, case: &serde_json::Value) {
         let mut reqs = vec![];
         let mut checks = vec![];
         cli_case(rep, &mut rng, 0, Some(case), &mut reqs, &mut checks);
+    }
+}
+
+const PROFDATA_STUB: &str = r#"#!/bin/sh
+# recording stand-in for llvm-profdata: logs argv (with the -o path) and the content of every
+# profile listed on stdin, then writes the merged profile where it is told to
+out=""
+prev=""
+for a in "$@"; do
+  if [ "$prev" = "-o" ]; then out="$a"; fi
+  prev="$a"
+done
+{
+  printf 'OUT %s\n' "$out"
+  while IFS= read -r line; do
+    if [ -f "$line" ]; then printf 'PROFILE %s\n' "$(cat "$line")"; else printf 'PROFILE missing:%s\n' "$line"; fi
+  done
+  printf 'END\n'
+} >> "$STUB_LOG.$$"
+cat "$STUB_LOG.$$" >> "$STUB_LOG"; rm -f "$STUB_LOG.$$"
+echo merged > "$out"
+exit 0
+"#;
+
+const COV_STUB: &str = r#"#!/bin/sh
+# recording stand-in for llvm-cov: `export <binary> --instr-profile <p> --format lcov`
+printf 'COV %s %s\n' "$(basename "$2")" "$4" >> "$STUB_LOG"
+if [ -f "$4" ]; then :; else printf 'COVMISSING %s\n' "$4" >> "$STUB_LOG"; fi
+cat "$2.lcov"
+exit 0
+"#;
+
+fn write_exec(path: &Path, text: &str) {
+    std::fs::write(path, text).unwrap();
+    use std::os::unix::fs::PermissionsExt;
+    std::fs::set_permissions(path, std::fs::Permissions::from_mode(0o755)).unwrap();
+}
+
+/// Source-based (LLVM) path with profiles given as PLAIN FILE ARGUMENTS (exactly one `.profdata`,
+/// one `.profraw`, several of each), inside a directory, inside a zip: snapshots of every input
+/// and of the temp dir around a CLI run with recording stub tools; the `-o` path handed to
+/// llvm-profdata is compared with `profdataPath (workerDir tmp i)` of the model.
+fn stream_llvm(rep: &mut Report, rng: &mut Rng) {
+    let n = rep.budget(30, 5);
+    let stubs = rep.workdir.join("dest_stubs");
+    std::fs::create_dir_all(&stubs).unwrap();
+    write_exec(&stubs.join("llvm-profdata"), PROFDATA_STUB);
+    write_exec(&stubs.join("llvm-cov"), COV_STUB);
+    let mut reqs = vec![];
+    let mut want = vec![];
+    let mut cases = vec![];
+    for c in 0..n {
+        let case_dir = rep.workdir.join(format!("destL{}", c));
+        let _ = std::fs::remove_dir_all(&case_dir);
+        for d in ["in", "tmp", "cwd", "out", "bins", "log"] {
+            std::fs::create_dir_all(case_dir.join(d)).unwrap();
+        }
+        let case_abs = std::fs::canonicalize(&case_dir).unwrap();
+        let layout = match c % 7 {
+            0 => "one_plain_profdata",
+            1 => "one_plain_profraw",
+            2 => "several_plain",
+            3 => "directory",
+            4 => "zip",
+            5 => "one_plain_profdata_relative_dotdot",
+            _ => "mixed",
+        };
+        let mut args: Vec<String> = vec![];
+        let mut ids: Vec<String> = vec![];
+        let next = |ids: &mut Vec<String>| {
+            let id = format!("profile-{}-{}", c, ids.len());
+            ids.push(id.clone());
+            id
+        };
+        let mut zip_entries: Vec<(String, String)> = vec![];
+        let put_plain = |name: &str, ids: &mut Vec<String>, args: &mut Vec<String>, via: &str| {
+            let id = next(ids);
+            std::fs::write(case_dir.join("in").join(name), &id).unwrap();
+            args.push(format!("{}{}", via, name));
+        };
+        match layout {
+            "one_plain_profdata" => put_plain("app.profdata", &mut ids, &mut args, "../in/"),
+            "one_plain_profraw" => put_plain("default.profraw", &mut ids, &mut args, "../in/"),
+            "one_plain_profdata_relative_dotdot" => put_plain("app.profdata", &mut ids, &mut args, "../cwd/../in/./"),
+            "several_plain" => {
+                for i in 0..rng.range(2, 4) {
+                    put_plain(&format!("p{}.profdata", i), &mut ids, &mut args, "../in/");
+                }
+                for i in 0..rng.range(1, 3) {
+                    let via = format!("{}/in/", case_abs.display());
+                    put_plain(&format!("r{}.profraw", i), &mut ids, &mut args, &via);
+                }
+            }
+            "directory" => {
+                std::fs::create_dir_all(case_dir.join("in/d/svc")).unwrap();
+                let only_one = rng.chance(1, 2);
+                for (i, name) in ["d/app.profdata", "d/svc/default.profraw", "d/svc/other.profdata"].iter().enumerate() {
+                    if only_one && i > 0 {
+                        break;
+                    }
+                    let id = next(&mut ids);
+                    std::fs::write(case_dir.join("in").join(name), &id).unwrap();
+                }
+                args.push("../in/d".into());
+            }
+            "zip" => {
+                let only_one = rng.chance(1, 2);
+                for (i, name) in ["app.profdata", "z/default.profraw", "z/default.profdata"].iter().enumerate() {
+                    if only_one && i > 0 {
+                        break;
+                    }
+                    zip_entries.push((name.to_string(), next(&mut ids)));
+                }
+            }
+            _ => {
+                put_plain("app.profdata", &mut ids, &mut args, "../in/");
+                std::fs::create_dir_all(case_dir.join("in/d")).unwrap();
+                let id = next(&mut ids);
+                std::fs::write(case_dir.join("in/d/app.profdata"), &id).unwrap();
+                args.push("../in/d".into());
+                zip_entries.push(("app.profdata".into(), next(&mut ids)));
+            }
+        }
+        if !zip_entries.is_empty() {
+            let f = std::fs::File::create(case_dir.join("in/profiles.zip")).unwrap();
+            let mut z = zip::ZipWriter::new(f);
+            let o = zip::write::SimpleFileOptions::default().compression_method(zip::CompressionMethod::Stored);
+            for (name, id) in &zip_entries {
+                use std::io::Write;
+                z.start_file(name.as_str(), o).unwrap();
+                z.write_all(id.as_bytes()).unwrap();
+            }
+            z.finish().unwrap();
+            args.push("../in/profiles.zip".into());
+        }
+        // one binary with a canned export
+        let mut elf = vec![0x7f, b'E', b'L', b'F', 2, 1, 1, 0];
+        elf.extend_from_slice(&[0u8; 200]);
+        std::fs::write(case_dir.join("bins/app"), &elf).unwrap();
+        std::fs::write(case_dir.join("bins/app.lcov"), "SF:src/a.rs\nDA:1,1\nend_of_record\n").unwrap();
+        let threads = *rng.pick(&[1usize, 2, 3]);
+        let log = case_abs.join("log/stub.log");
+        std::env::set_var("STUB_LOG", &log);
+        std::env::set_var("TMPDIR", case_abs.join("tmp"));
+        let before = super::snapshot(&case_dir);
+        let out = run_grcov(&RunCfg {
+            dir: &case_dir.join("cwd"),
+            args: args.clone(),
+            threads,
+            perturb: None,
+            fault: None,
+            limit: Duration::from_secs(60),
+            extra: vec!["-t".into(), "lcov".into(), "-o".into(), "../out/r.info".into(), "--binary-path".into(), "../bins".into(),
+                "--llvm-path".into(), stubs.to_str().unwrap().into()],
+        });
+        std::env::remove_var("TMPDIR");
+        std::env::remove_var("STUB_LOG");
+        let _ = std::fs::remove_file(case_dir.join("cwd/events.log"));
+        let after = super::snapshot(&case_dir);
+        let case = json!({"op": "dest.llvm", "layout": layout, "args": args, "profiles": ids, "threads": threads, "exit": out.exit});
+        rep.case(&format!("llvm {} {:?} {}", layout, args, threads), true);
+        rep.count(&format!("llvm.layout.{}", layout));
+        if c == 0 {
+            rep.sample(case.clone());
+        }
+        // ---- oracle: every input byte for byte and entry for entry as before; nothing outside out/; temp dir empty
+        let mut bad = vec![];
+        for (p, v) in &before {
+            match after.get(p) {
+                None => bad.push(format!("deleted: {}", p)),
+                Some(a) if a != v => bad.push(format!("modified: {}", p)),
+                _ => {}
+            }
+        }
+        for p in after.keys() {
+            if !before.contains_key(p) && !(p == "out/r.info" || p.starts_with("log/")) && !(p.starts_with("tmp/") && out.exit != Some(0)) {
+                bad.push(format!("created: {}", p));
+            }
+        }
+        if out.exit != Some(0) {
+            bad.push(format!("exit {:?}: {}", out.exit, out.stderr.lines().last().unwrap_or("")));
+        }
+        let logtext = std::fs::read_to_string(&log).unwrap_or_default();
+        let mut seen: Vec<String> = logtext.lines().filter_map(|l| l.strip_prefix("PROFILE ")).map(|s| s.to_string()).collect();
+        seen.sort();
+        let mut want_ids = ids.clone();
+        want_ids.sort();
+        if seen != want_ids {
+            bad.push(format!("profiles read by the merge tool {:?}, expected {:?}", seen, want_ids));
+        }
+        if logtext.lines().any(|l| l.starts_with("COVMISSING")) {
+            bad.push("llvm-cov was given a merged profile that does not exist".into());
+        }
+        if !bad.is_empty() {
+            bad.truncate(8);
+            rep.fail("oracle", None, format!("LLVM path with {}: {:?}", layout, bad), case.clone());
+        }
+        // ---- model: the -o path is <tmp dir>/<worker>/grcov.profdata
+        for l in logtext.lines().filter_map(|l| l.strip_prefix("OUT ")) {
+            let p = Path::new(l);
+            let wd = p.parent().unwrap_or(Path::new("/"));
+            let tmpd = wd.parent().unwrap_or(Path::new("/"));
+            let worker = wd.file_name().and_then(|n| n.to_str()).and_then(|n| n.parse::<usize>().ok());
+            let in_tmp = tmpd.parent() == Some(case_abs.join("tmp").as_path());
+            match worker {
+                Some(w) if w < threads && in_tmp => {
+                    reqs.push(format!("confine.dest.profdata {} {}", super::comps(tmpd.to_str().unwrap()), w));
+                    want.push(segs_of(p));
+                    cases.push(case.clone());
+                    rep.count("llvm.merge_invocation");
+                }
+                _ => rep.fail("oracle", None, format!("llvm-profdata -o {} is not <temp dir>/<worker index>/…", l), case.clone()),
+            }
+        }
+    }
+    let ans = run_model(&reqs, &rep.workdir, "dest_llvm");
+    for i in 0..reqs.len() {
+        if ans[i] != want[i] {
+            rep.disagreements_checked += 1;
+            rep.fail("disagreement", None, format!("merged profile path: impl {} model {}", want[i], ans[i]), json!({"op": "dest.llvm", "case": cases[i], "request": reqs[i]}));
+        }
     }
 }
